@@ -8,9 +8,9 @@ P=$(readlink -f "$1"); shift
 N=$(echo "$P" | md5sum | cut -c1-8)
 WT=/tmp/mut/wt_$N; OUT=/tmp/mut/out_$N
 mkdir -p /tmp/mut
-git -C /repo worktree remove --force $WT 2>/dev/null
-git -C /repo worktree add -q --detach $WT HEAD || exit 2
-trap 'git -C /repo worktree remove --force $WT; rm -rf $OUT' EXIT
+flock /tmp/gitwt.lock git -C /repo worktree remove --force $WT 2>/dev/null
+flock /tmp/gitwt.lock git -C /repo worktree add -q --detach $WT HEAD || exit 2
+trap 'flock /tmp/gitwt.lock git -C /repo worktree remove --force $WT; rm -rf $OUT' EXIT
 git -C $WT apply "$P" || { echo "patch does not apply"; exit 2; }
 mkdir -p $OUT /verif/replays/iso
 for id in "$@"; do
